@@ -5,6 +5,6 @@ CONSTANTS
   NMsg = 2
   K = 1
   WithClose = TRUE
-  SendRecovers = TRUE
+  SendRecovers = FALSE
 INVARIANTS Inv_NoPanic Inv_AtMostOnce Inv_PerSenderFIFO Inv_NothingAfterClose
 CHECK_DEADLOCK FALSE
